@@ -14,6 +14,7 @@ import Bng.Proof.XdpDhcpEnd
     D11  lease_expiry is Unix time, the program's clock is not → `expired_not_answered_partial`, `D11_witness`
     KF-opt53-fixed  message type read at fixed offsets          → `tx_wellformed` is about the type the program READS;
                                                                   `tx_type_partial`, `KF_opt53_fixed_witness`
+    KF-dns-more-than-two / KF-expiry-subsecond                  → `KF_dns_more_than_two_witness`, `KF_expiry_subsecond_witness`
     KF-srvcfg-unset server_config never written                 → hypothesis `S ≠ 0` of `tx_agrees_partial`, `KF_srvcfg_unset_witness`
     KF-fastpath-reqaddr / KF-cid-foreign-mac: WHICH lease a request is answered from (requested address ignored,
       `KF_fastpath_reqaddr_witness`; circuit-id before MAC, `KF_cid_foreign_mac_witness`)
@@ -105,7 +106,7 @@ theorem tx_agrees_partial (f : Frame) (clk : UInt64) (f' : Frame) (m : Maps) (hl
     refine ⟨p, t, a, pool, cfg, hh, ?_⟩
     intro A P mac S idx ha hp hc hS hd hnz hpl
     rw [hf, ha, hp, hc]
-    exact reply_view hh.wf hh.room t A P mac S idx hS hd hnz hpl
+    exact reply_view hh.wf hh.room t A P (encCfg mac S idx) S (rd32_encCfg_ip mac S idx) hS hd hnz hpl
 
 /-- an address whose wire bytes read the same in both directions (a.b.b.a) -/
 def Palindromic (ip : UInt32) : Prop := rev4 (ipWire ip) = ipWire ip
@@ -185,27 +186,25 @@ theorem cache_sound (now : Nat) (sip : UInt32) (ops : List Op) :
     Inv (Srv.run { now := now, serverIp := sip } ops) :=
   inv_run (inv_init now sip) ops
 
-/-- **No answer after the end**: after any history, if the fast path transmits then userspace holds a lease that
-    owns the answering entry — a lease of a MAC with the request's MAC key, or a lease whose circuit-id has the
-    circuit-id key the program extracted from the request.  So once a client's lease has been released, declined or
-    cleaned up, and no other lease shares its circuit-id key, its requests are passed to userspace. -/
+/-- **No answer after the end, and none after expiry on the program's clock**: after any history, if the fast path
+    transmits then userspace holds a lease `l` that OWNS the request — its MAC has the MAC key of the request's
+    chaddr, or its circuit-id has the circuit-id key the program extracted — the answering entry was written for
+    that lease, and the clock handed to the program has not passed that lease's expiry.  So once a client's lease
+    has been released, declined or cleaned up, and no other lease shares its circuit-id key, its requests are
+    passed to userspace. -/
 theorem no_answer_after_end (now : Nat) (sip : UInt32) (ops : List Op) (f : Frame) (clk : UInt64) (f' : Frame)
     (hlen : f.length < 65536)
     (h : run f (Srv.run { now := now, serverIp := sip } ops).maps clk = .ok (XDP_TX, f')) :
     ∃ p l, parseHeaders f = .ok (some p) ∧
-      AMap.lookup (Srv.run { now := now, serverIp := sip } ops).leases l.mac = some l ∧
-      (macKeyOf l.mac = macKeyOf (bytesAt f (p.dhcpOff + 28) 6) ∨
-       (l.cidBytes ≠ [] ∧ extractCid f p.dhcpOff = .ok (some (cidKeyOf l.cidBytes)))) :=
+      AMap.lookup (Srv.run { now := now, serverIp := sip } ops).leases l.mac = some l ∧ Owns l f p ∧
+      ¬ (clk / 1000000000 > UInt64.ofNat l.exp) :=
   tx_has_lease (cache_sound now sip ops) hlen h
 
-/-- contrapositive, for one client: no lease for the MAC key and no lease with the extracted circuit-id key ⇒ PASS,
-    frame untouched -/
+/-- contrapositive, for one client: no lease owns the request ⇒ PASS, frame untouched -/
 theorem ended_client_passed (now : Nat) (sip : UInt32) (ops : List Op) (f : Frame) (clk : UInt64)
     (hlen : f.length < 65536)
     (hnone : ∀ p l, parseHeaders f = .ok (some p) →
-      AMap.lookup (Srv.run { now := now, serverIp := sip } ops).leases l.mac = some l →
-      macKeyOf l.mac ≠ macKeyOf (bytesAt f (p.dhcpOff + 28) 6) ∧
-      (l.cidBytes = [] ∨ extractCid f p.dhcpOff ≠ .ok (some (cidKeyOf l.cidBytes)))) :
+      AMap.lookup (Srv.run { now := now, serverIp := sip } ops).leases l.mac = some l → ¬ Owns l f p) :
     run f (Srv.run { now := now, serverIp := sip } ops).maps clk
       = .ok (XDP_PASS, f) := by
   obtain ⟨r, hr, hpost⟩ := run_Ok f (Srv.run { now := now, serverIp := sip } ops).maps clk
@@ -215,25 +214,66 @@ theorem ended_client_passed (now : Nat) (sip : UInt32) (ops : List Op) (f : Fram
     rw [hr, pass_identical f _ clk r.2 hlen hr]
   · have : r = (XDP_TX, r.2) := by rw [← hv]
     rw [this] at hr
-    obtain ⟨p, l, hp, hl, hk⟩ := no_answer_after_end now sip ops f clk r.2 hlen hr
-    have := hnone p l hp hl
-    rcases hk with hk | ⟨h1, h2⟩
-    · exact absurd hk this.1
-    · rcases this.2 with e | e
-      · exact absurd e h1
-      · exact absurd h2 e
+    obtain ⟨p, l, hp, hl, hk, _⟩ := no_answer_after_end now sip ops f clk r.2 hlen hr
+    exact absurd hk (hnone p l hp hl)
 
-/-- **Expiry, outside the exclusion clause of D11** (the clock handed to the program is the slow path's clock):
-    after any history, if the request matches no circuit-id entry and the fast path transmits, then the table holds
-    a lease whose expiry that clock has not passed — an expired lease is not answered. -/
-theorem expired_not_answered_partial (now : Nat) (sip : UInt32) (ops : List Op) (f : Frame) (clk : UInt64) (f' : Frame)
+/-- **Expiry, outside the exclusion clause of D11** (the clock handed to the program is the slow path's clock, in
+    whole seconds): after any history, if every lease that owns the request — by MAC key or by circuit-id key, so
+    both lookup stages are covered — has expired on that clock, the request is passed to userspace untouched. -/
+theorem expired_not_answered_partial (now : Nat) (sip : UInt32) (ops : List Op) (f : Frame) (clk : UInt64)
     (hlen : f.length < 65536)
-    (h : run f (Srv.run { now := now, serverIp := sip } ops).maps clk = .ok (XDP_TX, f'))
-    (hnocid : ∀ p k, parseHeaders f = .ok (some p) → extractCid f p.dhcpOff = .ok (some k) →
-      AMap.lookup (Srv.run { now := now, serverIp := sip } ops).maps.cid k = none) :
-    ∃ l, AMap.lookup (Srv.run { now := now, serverIp := sip } ops).leases l.mac = some l ∧
-      ¬ (clk / 1000000000 > UInt64.ofNat l.exp) :=
-  tx_mac_stage_unexpired (cache_sound now sip ops) hlen h hnocid
+    (hclk : clk / 1000000000 = UInt64.ofNat (Srv.run { now := now, serverIp := sip } ops).now)
+    (hnow : (Srv.run { now := now, serverIp := sip } ops).now < 18446744073709551616)
+    (hexp : ∀ p l, parseHeaders f = .ok (some p) →
+      AMap.lookup (Srv.run { now := now, serverIp := sip } ops).leases l.mac = some l → Owns l f p →
+      (Srv.run { now := now, serverIp := sip } ops).now > l.exp) :
+    run f (Srv.run { now := now, serverIp := sip } ops).maps clk = .ok (XDP_PASS, f) := by
+  obtain ⟨r, hr, hpost⟩ := run_Ok f (Srv.run { now := now, serverIp := sip } ops).maps clk
+  rcases hpost.1 with hv | hv
+  · have : r = (XDP_PASS, r.2) := by rw [← hv]
+    rw [this] at hr
+    rw [hr, pass_identical f _ clk r.2 hlen hr]
+  · have : r = (XDP_TX, r.2) := by rw [← hv]
+    rw [this] at hr
+    obtain ⟨p, l, hp, hl, hk, hlive⟩ := no_answer_after_end now sip ops f clk r.2 hlen hr
+    have hgt := hexp p l hp hl hk
+    exfalso
+    apply hlive
+    rw [hclk]
+    show UInt64.ofNat l.exp < UInt64.ofNat _
+    rw [UInt64.lt_iff_toNat_lt, UInt64.toNat_ofNat', UInt64.toNat_ofNat']
+    rw [Nat.mod_eq_of_lt (by omega), Nat.mod_eq_of_lt (by omega)]
+    exact hgt
+
+/-- **The reply is what userspace would send to THAT subscriber, after any history** (up to D10): if the fast path
+    transmits on the cache a history produced, the answering entry belongs to a lease `l` userspace still holds and
+    that owns the request, `P` is the pool the manager holds under the lease's pool id, and — when server_config was
+    written (`Op.setCfg`, what `Server.Start` does) with a non-zero server address, the pool has at most two non-zero
+    DNS servers and a prefix length ≤ 32 — the BOOTP message carries exactly the fields of the userspace reply for
+    that lease (`slowView`: yiaddr = l.ip, option 54 = the server's address, 51/1/3/6 from `P`) with the addresses
+    byte-reversed. -/
+theorem tx_agrees_history (now : Nat) (sip : UInt32) (ops : List Op) (f : Frame) (clk : UInt64) (f' : Frame)
+    (hlen : f.length < 65536)
+    (h : run f (Srv.run { now := now, serverIp := sip } ops).maps clk = .ok (XDP_TX, f')) :
+    ∃ p t l P, getMsgType f p.dhcpOff = .ok t ∧
+      AMap.lookup (Srv.run { now := now, serverIp := sip } ops).leases l.mac = some l ∧ Owns l f p ∧
+      AMap.lookup (Srv.run { now := now, serverIp := sip } ops).pools P.id = some P ∧ le32 P.id = le32 l.poolId ∧
+      (∀ cfg, (Srv.run { now := now, serverIp := sip } ops).maps.cfg = some cfg → rd32 cfg 8 ≠ 0 →
+        P.dns.length ≤ 2 → (∀ d ∈ P.dns, d ≠ 0) → P.prefixLen.toNat ≤ 32 →
+        viewOf (f'.drop p.dhcpOff) =
+          (slowView (replyTypeOf t) l.ip (Srv.run { now := now, serverIp := sip } ops).serverIp P).rev) := by
+  obtain ⟨p, t, l, pc, P, cfg, hh, h1, h2, _, h4, h5, h6, h7, h8⟩ :=
+    tx_from_live_lease (cache_sound now sip ops) hlen h
+  refine ⟨p, t, l, P, hh.mt, h1, h2, h4, h5, ?_⟩
+  intro cfg' hc hnz hd hdn hpl
+  have : cfg' = cfg := by rw [h6] at hc; exact (Option.some.inj hc).symm
+  subst this
+  have hS : rd32 cfg' 8 = (Srv.run { now := now, serverIp := sip } ops).serverIp := by
+    rcases h7 with e | e
+    · exact e
+    · exact absurd e hnz
+  rw [h8]
+  exact reply_view hh.wf hh.room t (assignmentOf l pc) P cfg' _ hS (by rw [← hS]; exact hnz) hd hdn hpl
 
 end Bng.Spec.C03
 
@@ -248,7 +288,7 @@ def wPool : PoolCfg :=
 def wMac : Bytes := [2, 0, 0, 0, 0, 1]
 /-- the history: configure, add the pool, ACK 10.0.1.5 to 02:00:00:00:00:01 at t = 1 000 000, let 4000 s pass -/
 def wOps : List Op :=
-  [.setCfg [2, 0, 0, 0, 0, 0xfe] 0x0a000101 2, .addPool wPool, .ack wMac 0x0a000105 false none, .tick 4000]
+  [.setCfg [2, 0, 0, 0, 0, 0xfe] 2, .addPool wPool, .ack wMac 0x0a000105 false none, .tick 4000]
 def wSrv : Srv := Srv.run { now := 1000000, serverIp := 0x0a000101 } wOps
 /-- a 320-byte DHCPDISCOVER of that client in an untagged Ethernet/IPv4/UDP frame -/
 def wFrame : Frame :=
@@ -266,6 +306,20 @@ theorem D11_witness :
     ((run wFrame wSrv.maps 5000000000000).toOption.map (·.1)) = some XDP_TX ∧
     ((run wFrame wSrv.maps (UInt64.ofNat (wSrv.now * 1000000000))).toOption.map (·.1)) = some XDP_PASS := by
   decide +kernel
+
+/-- KF-dns-more-than-two, the defect as a theorem: the map value holds two servers; a third one never reaches it. -/
+theorem KF_dns_more_than_two_witness (P : PoolCfg) (a b c : UInt32) (rest : List UInt32) :
+    encPool { P with dns := a :: b :: c :: rest } = encPool { P with dns := [a, b] } := by
+  simp [encPool, dnsAt]
+
+/-- KF-expiry-subsecond, the defect as a theorem: a lease with ExpiresAt = X.500 s at time X.600 s is expired for
+    userspace (`now.After(ExpiresAt)`) while the program's test `now > lease_expiry` on the very same clock, in whole
+    seconds, is false. -/
+theorem KF_expiry_subsecond_witness :
+    let s : Srv := { now := 1000600, subMs := 600 }
+    let l : Lease := { mac := wMac, ip := 0x0a000105, poolId := 1, exp := 1000600, expMs := 500 }
+    s.after l = true ∧ ¬ (UInt64.ofNat s.now > UInt64.ofNat l.exp) := by
+  decide
 
 /-- non-vacuity of `tx_wellformed` / `tx_agrees_partial` / `no_answer_after_end`: a transmission exists -/
 example : ∃ f', run wFrame wSrv.maps 5000000000000 = .ok (XDP_TX, f') := by
